@@ -9,6 +9,7 @@ and then use trimesh operations on them at any point.
 """
 
 import abc
+import copy
 from copy import deepcopy
 
 import numpy as np
@@ -274,7 +275,8 @@ class PrimitiveAttributes:
             value = kwargs.get(key, None)
             if value is not None:
                 # convert passed data into type of defaults
-                self._data[key] = util.convert_like(value, default)
+                # and don't share memory with what the caller passed
+                self._data[key] = copy.copy(util.convert_like(value, default))
         # make sure stored values are immutable after setting
         if not self._mutable:
             self._data.mutable = False
@@ -322,7 +324,10 @@ class PrimitiveAttributes:
             return
         elif key in self._defaults:
             if self._mutable:
-                self._data[key] = util.convert_like(value, self._defaults[key])
+                # don't share memory with what the caller passed
+                self._data[key] = copy.copy(
+                    util.convert_like(value, self._defaults[key])
+                )
             else:
                 raise ValueError(
                     "Primitive is configured as immutable! Cannot set attribute!"
